@@ -38,7 +38,8 @@ struct Ws {
     same_named: bool,
 }
 
-const CRATE_NAMES: [&str; 5] = ["alpha", "beta-util", "gamma_core", "delta", "eps-x-y"];
+/// the last five begin with the name of a well-known third-party crate (which typeshare ignores) without being one
+const CRATE_NAMES: [&str; 10] = ["alpha", "beta-util", "gamma_core", "delta", "eps-x-y", "time-utils", "http_types", "stdx", "ring-buffer", "synapse"];
 const FORMS: [&str; 9] = ["use-single", "use-grouped", "use-nested", "use-glob", "qualified", "qualified-deep", "use-grouped-fn-after", "use-grouped-self-after", "use-renamed-target"];
 
 fn crate_ident(n: &str) -> String {
@@ -47,7 +48,9 @@ fn crate_ident(n: &str) -> String {
 
 fn gen_ws(rng: &mut Rng) -> Ws {
     let k = rng.range(1, 5);
-    let mut crates: Vec<String> = CRATE_NAMES[..k].iter().map(|s| s.to_string()).collect();
+    let mut pool = CRATE_NAMES.to_vec();
+    rng.shuffle(&mut pool);
+    let mut crates: Vec<String> = pool[..k].iter().map(|s| s.to_string()).collect();
     // a directory above `src` may carry dots (`alpha.v2` next to `alpha`): not nameable in a `use`, so nobody refers to
     // its types from outside, but its types still go to the file named after it
     let dotted = rng.chance(1, 3);
@@ -562,7 +565,7 @@ pub fn run(ctx: &Ctx) -> (Spec, Report) {
     }
     let spec = Spec {
         level: "exploration",
-        rule: format!("{n} generated workspaces of 1-5 crates (names with dashes and underscores; a third of them with an extra `<first crate>.v2` directory, whose name differs from an existing crate only behind a dot), 1-3 files per crate at depth 1-4 under src, 1-3 types per file, references to earlier types in the same file, the same crate (crate:: / super:: / use self:: / use crate::) and other crates (use single / grouped / nested / glob, qualified and deep qualified paths), a fifth of the types generic and referred to with a type argument that is itself a reference in any of those forms (`other::Page<third::models::deep::Item>`), wrapped in nothing / Vec / Option / HashMap / Box<[..; 2]>, a sixth of the types serde-renamed, optional prefix and a foreign type mapping; real binary with --output-folder and, as twin, --output-file; TypeScript, Kotlin, Swift, Python (Scala and Go have no multi-file support); oracle: file set and names from the crate rule, every type in exactly its crate's file, union of definitions equals the single-file run, TS/Kotlin imports resolve to the defining file and name only defined types; distinct = (language, crate count, prefix?) and (language, reference form, renamed?)"),
+        rule: format!("{n} generated workspaces of 1-5 crates (names drawn from 10, with dashes and underscores, half of them beginning with the name of a third-party crate typeshare ignores - time-utils, http_types, stdx, ring-buffer, synapse; a third of them with an extra `<first crate>.v2` directory, whose name differs from an existing crate only behind a dot), 1-3 files per crate at depth 1-4 under src, 1-3 types per file, references to earlier types in the same file, the same crate (crate:: / super:: / use self:: / use crate::) and other crates (use single / grouped / nested / glob, qualified and deep qualified paths), a fifth of the types generic and referred to with a type argument that is itself a reference in any of those forms (`other::Page<third::models::deep::Item>`), wrapped in nothing / Vec / Option / HashMap / Box<[..; 2]>, a sixth of the types serde-renamed, optional prefix and a foreign type mapping; real binary with --output-folder and, as twin, --output-file; TypeScript, Kotlin, Swift, Python (Scala and Go have no multi-file support); oracle: file set and names from the crate rule, every type in exactly its crate's file, union of definitions equals the single-file run, TS/Kotlin imports resolve to the defining file and name only defined types; distinct = (language, crate count, prefix?) and (language, reference form, renamed?)"),
         assumptions: vec![
             "`use .. as ..` renames are outside the stated domain and not generated".into(),
             "extra imports (a glob brings in every type of the crate) are allowed as long as the module defines them".into(),
